@@ -1002,4 +1002,81 @@ example :
   refine ⟨h1, ?_, by decide +kernel⟩
   rw [h2]; decide +kernel
 
+/-- A property of (conn id, the four verdict fields) that holds of every link, and of every freshly created link,
+still holds after ONE shell event that is not a bare stamp: no such event writes a verdict field or a conn id, a
+reload retains links whole or creates fresh ones. -/
+theorem other_step_verdict_inv (s : Sys F) (Q : Nat → Stamp → Prop)
+    (hnew : ∀ id a now, Q id (verdictsOf (FLink.newUplink id a now : FLink F))) (e : Ev) (hs : isStamp e = false)
+    (h : ∀ l ∈ s.links, Q l.core.connId (verdictsOf l)) :
+    ∀ l ∈ (step s e).1.links, Q l.core.connId (verdictsOf l) := by
+  intro l' hl'
+  by_cases hr : e.isReload = true
+  · cases e with
+    | reload rnow addrs outs =>
+      rcases (mem_reload_iff s rnow addrs outs l').1 hl' with ⟨hold, -⟩ | ⟨k, a, id', -, -, rfl⟩
+      · exact h _ hold
+      · exact hnew id' a rnow
+    | _ => cases hr
+  · have hnr : e.isReload = false := by simpa using hr
+    obtain ⟨i, hi⟩ := List.getElem?_of_mem hl'
+    obtain ⟨y1, hy1, e1⟩ := getElem?_of_map_eq _ _ _ (Hk.step_ids s e hnr) i l' hi
+    obtain ⟨y2, hy2, e2⟩ := getElem?_of_map_eq _ _ _ (step_verdicts s e hs hnr) i l' hi
+    obtain rfl : y1 = y2 := Option.some.inj (hy1.symm.trans hy2)
+    have := h y1 (List.mem_of_getElem? hy1)
+    rw [← e1, ← e2] at this
+    exact this
+
+/-- … hence after any events other than ticks and bare stamps. -/
+theorem others_run_verdict_inv (v : Views F G) (s : Full F G) (Q : Nat → Stamp → Prop)
+    (hnew : ∀ id a now, Q id (verdictsOf (FLink.newUplink id a now : FLink F))) (es : List FEv)
+    (hes : ∀ e ∈ es, ∃ e', e = FEv.other e' ∧ isStamp e' = false)
+    (h : ∀ l ∈ s.sys.links, Q l.core.connId (verdictsOf l)) :
+    ∀ l ∈ (Full.run v s es).1.sys.links, Q l.core.connId (verdictsOf l) := by
+  induction es generalizing s with
+  | nil => exact h
+  | cons e es ih =>
+    obtain ⟨e', rfl, hs⟩ := hes _ List.mem_cons_self
+    exact ih (Full.step v s (.other e')).1 (fun x hx => hes x (List.mem_cons_of_mem _ hx))
+      (other_step_verdict_inv s.sys Q hnew e' hs h)
+
+/-- **A link that carries `weak = true` was CONNECTED at the last tick** (audit 5, A5: the run-level form of
+`C17_arm_not_weak_when_disconnected`).  After a tick and ANY further events up to the next tick (client / uplink /
+flush traffic, reloads, failed sends, REG_ERR …, no bare stamp): every link whose `weak` flag is set has the conn id
+of a link that was `connected` when the tick classified it (after `handle_housekeeping`).  What is NOT claimed:
+that it is STILL connected - `mark_for_recovery` between ticks clears `connected` and leaves `weak` until the next
+tick.  A link created since the tick is not weak. -/
+theorem C17_arm_weak_was_connected_at_last_tick (v : Views F G) (hv : Faithful v) (s : Full F G) (now : Nat)
+    (hnd : (ids s.sys.links).Nodup) (es' : List FEv)
+    (hes' : ∀ e ∈ es', ∃ e', e = FEv.other e' ∧ isStamp e' = false) :
+    ∀ l ∈ (Full.run v (hkArm v s now).1 es').1.sys.links, l.weak = true →
+      ∃ l0 ∈ (afterHk s.sys now).1.links, l0.core.connId = l.core.connId ∧ l0.core.connected = true := by
+  have key := others_run_verdict_inv v (hkArm v s now).1
+    (fun id st => st.weak = true →
+      ∃ l0 ∈ (afterHk s.sys now).1.links, l0.core.connId = id ∧ l0.core.connected = true)
+    (fun id a rnow hw => by cases hw) es' hes' ?_
+  · exact fun l hl hw => key l hl hw
+  · intro l' hl' hw
+    obtain ⟨l, hl, hid, hw'⟩ := hkArm_mem_weak v hv s now l' hnd hl'
+    refine ⟨l, hl, hid.symm, ?_⟩
+    cases hc : l.core.connected with
+    | true => rfl
+    | false =>
+      have hw'' : l'.weak = true := hw
+      rw [hw'] at hw''
+      unfold Classifier.verdictOf at hw''
+      split at hw''
+      · cases hw''
+      · simp [hv.clsConnected, hc] at hw''
+
+-- non-vacuity: hypotheses on the example state / events (distinct ids; a reload and an uplink datagram after the
+-- tick); that a `weak = true` stamp occurs at all is shown by the harness counter `hkarm-weak-stamped` (A7)
+example : (ids exF.sys.links).Nodup ∧
+    (∀ e ∈ [FEv.other exReload, FEv.other (.uplink 5200 2 exData)], ∃ e', e = FEv.other e' ∧ isStamp e' = false) := by
+  refine ⟨by decide +kernel, ?_⟩
+  intro e he
+  simp only [List.mem_cons, List.not_mem_nil, or_false] at he
+  rcases he with rfl | rfl
+  · exact ⟨_, rfl, rfl⟩
+  · exact ⟨_, rfl, rfl⟩
+
 end Srtla.Props.SysArm
